@@ -68,7 +68,7 @@ def early_death_spec():
 
 def plan(tier: str) -> list[dict]:
     q = tier == 'quick'
-    jobs = list(dagprop.std_plan(tier, controlled=(11, 120, 2500), serial=(1, 60, 1200), fork=(3, 20, 500), spawn=(1, 6, 120))) + dagprop.exhaustive_jobs(tier, 4)
+    jobs = list(dagprop.std_plan(tier, controlled=(10, 120, 2500), serial=(2, 200, 2500), fork=(3, 20, 500), spawn=(1, 6, 120))) + dagprop.exhaustive_jobs(tier, 4)
     jobs.append({'engine': 'fork+displays+early-death', 'n': 6 if q else 150, 'hashseed': 5})
     return jobs
 
@@ -82,9 +82,12 @@ def run_job(rec: core.Recorder, job: dict, seed: int) -> None:
         return
     eng = job['engine']
     from pbt.universe import vu
-    fail = ['raise:ValueError', 'raise:KeyError', 'raise:CustomErr', 'raise:UnpicklableErr', 'exit', 'baseexc', 'raisefrom'] + vu.CONTROL_FLOW_MODES
+    # the original kinds keep their weight; the control-flow exception types share one further slot's worth each third draw
+    fail = ['raise:ValueError', 'raise:KeyError', 'raise:CustomErr', 'raise:UnpicklableErr', 'exit', 'baseexc', 'raisefrom'] * 4 + vu.CONTROL_FLOW_MODES
     if eng != 'serial':
-        fail += ['kill9', 'kill15', 'exit0']
+        fail += ['kill9', 'kill15', 'exit0'] * 4
+    else:
+        fail += ['raisefrom'] * 8      # only an in-process backend hands the coordinator the original exception object (with its __cause__)
     strat = specs.dag_spec(min_nodes=2, max_nodes=5 if eng == 'spawn' else 9, backends=(eng,), fail_modes=fail, fail_rate=30,
                            noread_rate=30, continue_on_failure=(True, True, False), bust=True)
     from hypothesis import strategies as st
